@@ -2,3 +2,4 @@
 pub mod pkt;
 pub mod tcpopts;
 pub mod checksum;
+pub mod ctrl;
